@@ -22,6 +22,7 @@ static void body(mvprog::PT& p) {
     for (size_t i = 0; i < p.ops.size(); i++) {
         char op = p.ops[i];
         if (op == 'y') { thread_yield(); continue; }
+        if (op == 'p') { int npad = pmc_choose(3, PMC_PROG, 0, "pad yields"); for (int kk = 0; kk < npad; kk++) thread_yield(); continue; }   // every arrival order on one vCPU
         if (op == 'i') { int t = p.ops[++i] - '0'; if (G->prog.pts[t].th) { G->interrupts[t]++; thread_interrupt(G->prog.pts[t].th, EINTR); } p.result += "i"; continue; }
         bool wr = (op == 'W' || op == 'w' || op == 'x');
         bool timed = (op == 'r' || op == 'w'), tryl = (op == 's' || op == 'x');
@@ -103,6 +104,11 @@ static const PmcConfig CFG[] = {
     {"r:R|w,R:tdev",   3, {1,2}, {1,1}, {0,0}, {1,2}, "timed writer at the queue head, reader behind it"},
     {"q:R|w,W:tdev",   2, {1,2}, {1,1}, {0,0}, {2,2}, "timed writer consumes the notification meant for a writer"},
     {"q:W|x,s",        3, {1,2}, {0,0}, {0,0}, {0,0}, "try_lock"},
+    {"r:pW,pR,pR",     3, {0,0}, {0,0}, {0,0}, {0,0}, "one vCPU, every arrival order"},
+    {"q:pW,pR,pW",     3, {0,0}, {0,0}, {0,0}, {0,0}, ""},
+    {"r:pw,pW,pR:tdev",3, {0,0}, {1,2}, {0,0}, {0,0}, "one vCPU: timed writer vs unlock in every order"},
+    {"q:pw,pR,pW,ppi0:tdev", 3, {0,0}, {1,1}, {0,0}, {0,0}, ""},
+    {"r:pR,pW,ppi1",   3, {0,0}, {0,0}, {0,0}, {0,0}, "interrupt a waiting writer before / after it is admitted"},
     {"r:W|W,i1",       3, {1,2}, {0,0}, {0,0}, {0,0}, "interrupt a waiting writer"},
     {"q:W|R,i1",       3, {1,2}, {0,0}, {0,0}, {0,0}, ""},
     {"q:W,R|R,W",      2, {1,2}, {0,0}, {0,0}, {0,0}, ""},
